@@ -84,6 +84,8 @@ def gen_history(rng, model_comparable):
                     words = wlgen.make_tape(rng, wlgen.py_size(o["list"]), o["length"], o["sep"], o["cap"], "sepfail", chargen.DEFAULT_BUDGET)
                     tok = "gen %d %s" % (h, core.src_tokens(core.flat_tape(words)))
                     ops.append(tok)
+                    # ... and what the recipe reports right afterwards, on a stream that lets the separator succeed
+                    ops.append("ent %d %s" % (h, core.src_tokens(core.flat_tape(wlgen.draws_for_sep(rng, o["sep"]) + [1, 2, 3]))))
                     continue
                 words = wlgen.make_tape(rng, wlgen.py_size(o["list"]), o["length"], o["sep"], o["cap"], rng.choice(["random", "first", "last"]))
                 tok = "gen %d %s" % (h, core.src_tokens(core.flat_tape(words)))
@@ -95,8 +97,8 @@ def gen_history(rng, model_comparable):
                     # a call during which the separator function FAILS (every one of its 200 attempts misses a requirement):
                     # what it reported then must not stick to it
                     words = wlgen.draws_for_sep(rng, o["sep"], fail_attempts=chargen.DEFAULT_BUDGET[0]) + [1, 2, 3]
-                else:
-                    words = wlgen.draws_for_sep(rng, o["sep"]) + [1, 2, 3]
+                    ops.append("ent %d %s" % (h, core.src_tokens(core.flat_tape(words))))
+                words = wlgen.draws_for_sep(rng, o["sep"]) + [1, 2, 3]
                 ops.append("ent %d %s" % (h, core.src_tokens(core.flat_tape(words))))
     titles = sorted(set(w for o in objs if o["kind"] == "wl" for w in o["list"]))
     tl = "0" if not titles or not model_comparable else "%d,%s" % (len(titles), ",".join("%s>%s" % (core.hx(w), core.hx(w.capitalize())) for w in titles))
@@ -271,7 +273,8 @@ def fresh_process_independence(ctx, deep):
         parts = a.rsplit(" stdout=", 1)[0].split(" | ")
         calls = [j for j, op in enumerate(m["ops"]) if op.split(" ")[0] not in UPDATES and j < len(parts)]
         calls = [j for j in calls if any(m["ops"][i].split(" ")[0] not in UPDATES for i in range(j))]     # something was called before
-        for j in calls[-2:]:
+        is_bad = m["line"][:1992] in bad_lines or m["line"] in bad_lines
+        for j in (calls if is_bad else calls[-2:]):      # every call of a history on which model and implementation disagreed
             ops2 = [op for i, op in enumerate(m["ops"][:j]) if op.split(" ")[0] in UPDATES] + [m["ops"][j]]
             jobs.append((m, j, parts[j], "historyo" if False else "history", "%s %d %s" % (m["head"], len(ops2), " ".join(ops2)), len(ops2) - 1))
 
